@@ -180,51 +180,67 @@ func VerifC16Answers() {
 	zzverif.Cover("done")
 }
 
-// VerifC16WatchMapping: a prefix watch through the etcd shim emits PUT for creates/updates and
-// DELETE with the previous kv for deletes.
+// VerifC16WatchMapping: prefix watches through the etcd shim emit PUT for creates/updates and
+// DELETE with the previous kv for deletes — for every watch on the node: a second watch on the same
+// prefix running at the same time, and a third one started afterwards from the revision of the
+// write (served from the event cache), see the same events.
 func VerifC16WatchMapping() {
 	w := vNewEtcdWorld(zzverif.Param("keys", 1))
 	w.step() // something to update / delete
 	ch, err := w.s.backend.Watch(context.Background(), "/r/", 0)
 	zzverif.Assert(err == nil, "watch accepted")
+	ch2, err := w.s.backend.Watch(context.Background(), "/r/", 0)
+	zzverif.Assert(err == nil, "second watch accepted")
 	before := w.g.Clone()
+	from := w.dealt + 1
 	w.step()
 	zzverif.WaitIdle()
-	var evs []*mvccpb.Event
-	for done := false; !done; {
-		select {
-		case b := <-ch:
-			evs = append(evs, b...)
-			zzverif.WaitIdle()
-		default:
-			done = true
-		}
-	}
-	// at most one successful write happened after the watch started
-	changed := false
-	for i := 0; i < w.nkeys; i++ {
-		key := vEKeys[i]
-		nb, hb := before.Newest(key)
-		na, ha := w.g.Newest(key)
-		if ha && (!hb || na.Rev != nb.Rev) {
-			changed = true
-			zzverif.Assert(len(evs) == 1, "one event for one successful write")
-			e := evs[0]
-			zzverif.Assert(zzverif.BytesEq(e.Kv.Key, key), "event key")
-			zzverif.Assert(e.Kv.ModRevision == int64(na.Rev), "event revision")
-			if na.Del {
-				zzverif.Assert(e.Type == mvccpb.DELETE, "delete is announced as DELETE")
-				zzverif.Assert(e.PrevKv != nil && zzverif.BytesEq(e.PrevKv.Value, nb.Val) && e.PrevKv.ModRevision == int64(nb.Rev), "DELETE carries the previous kv")
-				zzverif.Cover("delete-event")
-			} else {
-				zzverif.Assert(e.Type == mvccpb.PUT, "create/update is announced as PUT")
-				zzverif.Assert(zzverif.BytesEq(e.Kv.Value, na.Val), "PUT carries the new value")
-				zzverif.Cover("put-event")
+	drain := func(ch <-chan []*mvccpb.Event) (evs []*mvccpb.Event) {
+		for {
+			select {
+			case b := <-ch:
+				evs = append(evs, b...)
+				zzverif.WaitIdle()
+			default:
+				return
 			}
 		}
 	}
-	if !changed {
-		zzverif.Assert(len(evs) == 0, "no event for a failed write")
-		zzverif.Cover("no-event")
+	check := func(evs []*mvccpb.Event) {
+		// at most one successful write happened after the watch started
+		changed := false
+		for i := 0; i < w.nkeys; i++ {
+			key := vEKeys[i]
+			nb, hb := before.Newest(key)
+			na, ha := w.g.Newest(key)
+			if ha && (!hb || na.Rev != nb.Rev) {
+				changed = true
+				zzverif.Assert(len(evs) == 1, "one event for one successful write")
+				e := evs[0]
+				zzverif.Assert(zzverif.BytesEq(e.Kv.Key, key), "event key")
+				zzverif.Assert(e.Kv.ModRevision == int64(na.Rev), "event revision")
+				if na.Del {
+					zzverif.Assert(e.Type == mvccpb.DELETE, "delete is announced as DELETE")
+					zzverif.Assert(e.PrevKv != nil && zzverif.BytesEq(e.PrevKv.Value, nb.Val) && e.PrevKv.ModRevision == int64(nb.Rev), "DELETE carries the previous kv")
+					zzverif.Cover("delete-event")
+				} else {
+					zzverif.Assert(e.Type == mvccpb.PUT, "create/update is announced as PUT")
+					zzverif.Assert(zzverif.BytesEq(e.Kv.Value, na.Val), "PUT carries the new value")
+					zzverif.Cover("put-event")
+				}
+			}
+		}
+		if !changed {
+			zzverif.Assert(len(evs) == 0, "no event for a failed write")
+			zzverif.Cover("no-event")
+		}
+	}
+	check(drain(ch))
+	check(drain(ch2))
+	ch3, err := w.s.backend.Watch(context.Background(), "/r/", from)
+	if err == nil {
+		zzverif.WaitIdle()
+		check(drain(ch3))
+		zzverif.Cover("replayed-from-cache")
 	}
 }
